@@ -26,44 +26,49 @@ Theorem C18_extraction_ok : race_extract_ok = true.
 Proof. exact extract_ok. Qed.
 Print Assumptions C18_extraction_ok.
 
-(* ... and every class that breaks the discipline is a recorded open finding
-   (Run/RaceCases.v: current_known_offenders; [] once they are repaired):
-   on the current tree groupWriter.buff, prefixWriter.buff, MatrixRow.Value. *)
-Theorem C18_table_offenders : subset_b (offenders current_table) current_known_offenders = true.
-Proof. exact table_offenders. Qed.
-Print Assumptions C18_table_offenders.
-
-Theorem C18_table_ok_modulo_known :
-  lockset_ok (drop_classes current_known_offenders current_table) = true.
-Proof. exact table_ok_modulo_known. Qed.
-Print Assumptions C18_table_ok_modulo_known.
-
-(* Full statement for the tree without open findings. *)
-Theorem C18_table_ok :
-  current_known_offenders = [] ->
-  lockset_ok current_table = true /\
-  forall owner sig_owner tr, valid tr -> annotated owner sig_owner current_table tr -> race_free tr.
-Proof.
-  exact (fun H => conj (offenders_nil_ok current_table
-                          (subset_nil _ (eq_ind_r (fun l => subset_b (offenders current_table) l = true) table_offenders (eq_sym H))))
-                       (fun o s tr Hv Ha => current_sound o s H tr Hv Ha)).
-Qed.
+(* ... and it meets the discipline, for the CURRENT tree, with no class exempted
+   (finite and exact: vm_compute over the extracted table).  Re-introducing an
+   unlocked write of a shared instance on a task goroutine -- or handing a
+   shared object to code that mutates its "own copy", e.g. passing a deferred
+   command on without DeepCopy -- changes the extracted table and breaks this. *)
+Theorem C18_table_ok : lockset_ok current_table = true.
+Proof. exact table_ok. Qed.
 Print Assumptions C18_table_ok.
 
-(* Meanwhile: executions that stay away from the offending classes are race free. *)
-Theorem C18_current_partial :
-  forall owner sig_owner tr, valid tr ->
-    annotated owner sig_owner (drop_classes current_known_offenders current_table) tr -> race_free tr.
-Proof. exact current_partial. Qed.
-Print Assumptions C18_current_partial.
+Theorem C18_table_no_offenders : offenders current_table = [] /\ current_known_offenders = [].
+Proof. exact (conj table_no_offenders eq_refl). Qed.
+Print Assumptions C18_table_no_offenders.
 
-(* Why an offending entry matters: a table with one unlocked write of a shared
-   instance on task goroutines (the shape of resolveMatrixRefs: row.Value = ...)
-   has a valid, annotated execution with a race. *)
+(* Hence: every execution annotated by the extracted table is race free. *)
+Theorem C18_current_sound :
+  forall owner sig_owner tr, valid tr -> annotated owner sig_owner current_table tr -> race_free tr.
+Proof. exact current_sound. Qed.
+Print Assumptions C18_current_sound.
+
+(* Cross-check with the fact extracted for C11 (extract/facts_vars.go): a defer:
+   entry reaches the compiled task as a copy, not as the shared definition
+   (runDeferred renders it in place). *)
+Theorem C18_deferred_entry_copied : DeferEntrySharedWithDefinition = false.
+Proof. reflexivity. Qed.
+Print Assumptions C18_deferred_entry_copied.
+
+(* The named pre-fix variant: with the entries as they were extracted before
+   /repo 25abf76 (output buffers) and 3d636e5 (matrix ref), exactly those three
+   classes offend ... *)
+Theorem C18_prefix_variant_refuted :
+  offenders (current_table ++ prefix_offending_table)%list
+  = ["internal/output.groupWriter.buff"; "internal/output.prefixWriter.buff"; "taskfile/ast.MatrixRow.Value"]%string.
+Proof. exact prefix_table_offenders. Qed.
+Print Assumptions C18_prefix_variant_refuted.
+
+(* ... and such an entry matters: the table holding the pre-fix resolveMatrixRefs
+   entry (row.Value = ..., no lock, shared instance, task goroutines) has a
+   valid, annotated execution with a race. *)
 Theorem C18_unlocked_write_refuted :
-  exists T owner sig_owner tr,
-    lockset_ok T = false /\ valid tr /\ annotated owner sig_owner T tr /\ ~ race_free tr.
-Proof. exact unlocked_write_refuted. Qed.
+  In bad_entry prefix_offending_table /\
+  exists owner sig_owner tr,
+    lockset_ok [bad_entry] = false /\ valid tr /\ annotated owner sig_owner [bad_entry] tr /\ ~ race_free tr.
+Proof. exact prefix_matrix_refuted. Qed.
 Print Assumptions C18_unlocked_write_refuted.
 
 (* The executable happens-before check never misses an ordering (used to turn
@@ -84,9 +89,9 @@ Proof.
 Qed.
 
 (* PARTIAL.  What is proved: the discipline implies happens-before race freedom
-   in the model, and the extracted table meets the discipline except for the
-   named classes.  What is NOT proved: that the accesses of the Go code are
+   in the model, and the table extracted from the current tree meets the
+   discipline.  What is NOT proved: that the accesses of the Go code are
    exactly the table's entries (the table is extracted syntactically:
-   extract/facts_race.go, with the assumptions listed in race_assumptions) and
+   extract/facts_race.go; its one remaining assumption is listed in race_assumptions) and
    that the Go race detector's verdict coincides with the model's (sampled by
    harness/drivers/race under -race). *)
